@@ -186,6 +186,7 @@ class Stream(object):
         Coroutine.
         '''
         if is_no_body(request, response):
+            self._close_unless_keep_alive(request, response)
             return
 
         if not raw:
@@ -203,6 +204,10 @@ class Stream(object):
         else:
             yield from self._read_body_until_close(response, file)
 
+        self._close_unless_keep_alive(request, response)
+
+    def _close_unless_keep_alive(self, request, response):
+        '''Close the connection if it cannot be used for another request.'''
         should_close = wpull.protocol.http.util.should_close(
             request.version, response.fields.get('Connection'))
 
